@@ -183,6 +183,9 @@ func Run(c Case) core.Result {
 	} else {
 		res.Labels = append(res.Labels, "owned-interleaving")
 	}
+	if c.Cfg.SharePlans {
+		res.Labels = append(res.Labels, "handler-side-plan-cache")
+	}
 	mark := core.RaceMark()
 
 	// concurrent run
